@@ -11,6 +11,8 @@ Require Import Urcu.Lfq.LfqSolo.
 Require Import Urcu.Lfs.Lfs.
 Require Import Urcu.Lfq.Lfq.
 Require Import Urcu.Lfht.Lfht.
+Require Import Urcu.Gp.GpMbDyn.
+Require Import Urcu.Progress.ProgressGp.
 Import ListNotations.
 
 (* wfcqueue enqueue: from ANY machine state (whatever the other threads have done or left half done) the caller returns after five of its own steps *)
@@ -88,4 +90,32 @@ Theorem C17_lfs_never_waits :
     end.
 Proof. exact (@Urcu.Progress.ProgressLf.lfs_push_pop_all_never_wait). Qed.
 Print Assumptions C17_lfs_never_waits.
+
+(* outermost rcu_read_lock of a registered thread (mb-flavor model, dynamic registry): three own steps plus the draining of its own store buffer, from any state - grace period in progress or not *)
+Theorem C17_read_lock_wait_free :
+    forall (s : state) (r : nat),
+    pc (rd s r) = R_Idle ->
+    let s2 := step (C_Lock r) (step (C_Lock r) s) in
+    let s3 := step (C_Lock r) (drain r (length (rbuf (rd s2 r))) s2) in pc (rd s3 r) = R_In (gpar s) 0.
+Proof. exact (@Urcu.Progress.ProgressGp.read_lock_wait_free). Qed.
+Print Assumptions C17_read_lock_wait_free.
+
+(* rcu_read_unlock: one own step from any state *)
+Theorem C17_read_unlock_wait_free :
+    forall (s : state) (r : nat) (p : bool) (n : nat),
+    pc (rd s r) = R_In p n ->
+    pc (rd (step (C_Unlock r) s) r) = match n with
+    | 0 => R_Idle
+    | S m => R_In p m
+    end.
+Proof. exact (@Urcu.Progress.ProgressGp.read_unlock_wait_free). Qed.
+Print Assumptions C17_read_unlock_wait_free.
+
+(* no step of another thread (reader, updater, registration) changes a reader's program counter: its progress cannot be undone *)
+Theorem C17_read_side_not_disturbed :
+    forall (s : state) (r : nat) (c : choice),
+    (forall r' : nat, c <> C_Lock r' \/ r' <> r) ->
+    (forall r' : nat, c <> C_Unlock r' \/ r' <> r) -> pc (rd (step c s) r) = pc (rd s r).
+Proof. exact (@Urcu.Progress.ProgressGp.others_do_not_interfere). Qed.
+Print Assumptions C17_read_side_not_disturbed.
 
